@@ -487,4 +487,23 @@ def r16_10(ctx):
         raise AnalysisError(f"pretty.traverse: mapping test `{short(t)}` is neither isinstance(..) nor `type in <collection>`")
 
 
-RULES = [r16_1, r16_2, r16_3, r16_4, r16_5, r16_6, r16_7, r16_8, r16_9, r16_10]
+def r16_11(ctx):
+    ctx.rule("R16.11", "children are listed in the container's own iteration order: in pretty.traverse the traversed object (or its items()) is iterated as it is - never through sorted() / reversed() - because on one line the result must equal repr(), which uses that order")
+    m = ctx.repo.mod("pretty")
+    f = m.fn("traverse")
+    fam = [f] + [q for k, q in m.functions.items() if k.startswith("traverse.<locals>.")]
+    n = 0
+    for q in fam:
+        params = set(q.params)
+        for x in walk_local(q.node):
+            if isinstance(x, ast.Call) and isinstance(x.func, ast.Name) and x.func.id in ("sorted", "reversed") and x.args:
+                a = x.args[0]
+                base = a.func.value if isinstance(a, ast.Call) and isinstance(a.func, ast.Attribute) and a.func.attr in ("items", "keys", "values") else a
+                if isinstance(base, ast.Name) and base.id in params:
+                    n += 1
+                    ctx.violation(q.fq, short(x), f"{m.relpath}:{x.lineno}", f"`{short(x)}` re-orders the elements of the traversed container: {{8, 1}} is printed as {{1, 8}} while repr() gives {{8, 1}} - the one-line form no longer equals repr()")
+    if not n:
+        ctx.ok(f.where, "the traversed container is iterated in its own order", f.fq)
+
+
+RULES = [r16_1, r16_2, r16_3, r16_4, r16_5, r16_6, r16_7, r16_8, r16_9, r16_10, r16_11]
